@@ -146,6 +146,13 @@ def filter_excludes_absent(F, it):
             summ = pred_summary(cb)
             if summ and all(excludes(conj, lambda s: is_tag_of(s), 0) is not None for conj in summ):
                 return True
+        elif name == "filter_map":
+            # filter_map(|(v, vtx)| (vtx.branch != 0).then_some(..)): Some only for tag != 0
+            cb = closure_of(F, extra[0]) if extra else None
+            summ = some_summary(cb) if cb is not None else None
+            if summ and all(excludes(conj, lambda s: is_tag_of(s), 0) is not None for conj in summ):
+                return True
+            return False
         elif name not in ITEM_KEEPING:
             return False
     return False
@@ -187,6 +194,13 @@ def xp1(F, R, only=None):
             n += 1
             ok = filter_excludes_absent(F, it)
             how = "filter adaptor"
+            if not ok and getattr(it, "consumer", "") == "filter_map" and len(it.result[2]) > 1 and \
+                    all(a in ITEM_KEEPING for a, _ in it.adaptors):
+                cb = closure_of(F, it.result[2][1])
+                summ = some_summary(cb) if cb is not None else None
+                if summ and all(excludes(conj, lambda s: is_tag_of(s), 0) is not None for conj in summ):
+                    ok = True
+                    how = "filter_map keeps a slot only if its tag is not 0"
             if not ok and is_keys_call(it.source) and name != "keys":
                 ok = True
                 how = "walks keys(), the present vertices"
